@@ -446,7 +446,8 @@ def b_dict(ex, args, kwargs, s):
         return
     (a,) = args
     if isinstance(a, Val) and strip_opt(a.ty)[0] == "dict":
-        d = alloc_dict(s, a.ty[1], a.ty[2])
+        aty = strip_opt(a.ty)
+        d = alloc_dict(s, aty[1], aty[2])
         copy_container(s, "d", a.t, d.t)
         for k, v in kwargs.items():
             dict_store(s, d.t, smt.str_const(k), to_v(v, s))
@@ -625,6 +626,10 @@ def call_method_val(ex, recv, name, args, kwargs, s: St):
         return
     if k == "obj":
         yield from ex.call_method(recv, name, args, kwargs, s)
+        return
+    if k == "any" and name in ("append", "extend"):
+        # list mutation on an untyped value (e.g. the list stored in a locally built dict): modelled as a list
+        yield from seq_method(ex, Val(recv.t, SEQ(ANY)), name, args, kwargs, s)
         return
     if k in ("any", "exc"):
         # dynamic dispatch on an untyped value: opaque method (pure by default) per the model
